@@ -12,7 +12,9 @@ LEVEL = ("Static analysis of the workspace compiled with every crate's `serde` f
          "output every field/variant of every serialisable type is written under its own name directly from the field and "
          "restored from the input - no skipped, defaulted, renamed, conditionally skipped or adapter-converted field outside a "
          "reasoned allow-list; (types) every field type is a primitive, std container, ndarray/sprs owned array, a reviewed "
-         "third-party type or another serialisable workspace type. Holds for every value of every such type.")
+         "third-party type or another serialisable workspace type; (guard) the unrestorable tokenizer function is protected by a "
+         "serialised flag that is raised wherever a function is installed and tested first by every public entry of the fitted "
+         "vectorisers. Holds for every value of every such type.")
 ASSUME = ["serde_derive's expansion is faithful to the attributes (the pinned version's output is what is analysed)",
           "serde impls of std, ndarray, sprs, rand_xoshiro, serde_regex are lossless (trusted base)",
           "prediction is a function of the model's fields only (no interior state; see R-C03-noint)"]
